@@ -162,7 +162,7 @@ pub fn scenarios(prop: &str, thorough: bool) -> Vec<Scenario> {
         }
         "C06" | "C19" => {
             v.extend(held_family(thorough));
-            v.extend(scenarios("C07", thorough).into_iter().filter(|s| s.name.starts_with("Big/") || s.name.starts_with("MC/") || s.name.starts_with("MC2/") || s.name.starts_with("E/") || s.name.starts_with("EE/")));
+            v.extend(scenarios("C07", thorough).into_iter().filter(|s| s.name.starts_with("Big/") || s.name.starts_with("MC/") || s.name.starts_with("MC2/") || s.name.starts_with("NG/") || s.name.starts_with("E/") || s.name.starts_with("EE/")));
             v.extend(scenarios("C12", thorough).into_iter().filter(|s| s.name.starts_with("RE/")));
             // small scripts, explored with a higher preemption bound
             for pool in [1usize, 2] {
@@ -403,6 +403,26 @@ pub fn scenarios(prop: &str, thorough: bool) -> Vec<Scenario> {
                                 });
                             }
                         }
+                    }
+                }
+            }
+            // (NG) patterns made of negated atoms only: every match scores 0, like the placeholders of
+            // scanned items that do not match or are not published yet
+            for pool in [1usize, 2] {
+                for (pi, p) in ["!a", "!b", "!a !b", "!ab", "!a b"].iter().enumerate() {
+                    for with_writer in [false, true] {
+                        v.push(Scenario {
+                            name: format!("NG/pool{pool}/p{pi}/writer={with_writer}"),
+                            pool_threads: pool,
+                            columns: 1,
+                            preload: vec![it(100, "a"), it(101, "c"), it(102, "ab"), it(103, "b"), it(104, "zzz"), it(105, "ca"), it(106, "bb"), it(107, "c")],
+                            u: vec![UOp::Reparse(0, p), UOp::Tick, UOp::Push(it(20, "xyz")), UOp::Tick, UOp::Drain(6)],
+                            injectors: if with_writer { vec![(true, vec![IOp::Push(it(1, "q")), IOp::Push(it(2, "a"))])] } else { vec![] },
+                            slots: 0,
+                            bound: 0,
+                            fine: true,
+                            flag_points: false,
+                        });
                     }
                 }
             }
